@@ -207,6 +207,13 @@ def s_const_repr(_ctx):
         cases.append((np.array(v, dtype=np.int64), f"INT64 scalar {v}"))
         cases.append((np.array([v], dtype=np.int64), f"INT64[1] [{v}]"))
     cases.append((np.array([], dtype=np.float32), "FLOAT[0]"))
+    # other element types: a bare Python literal is read back by the converter as FLOAT / INT64 / BOOL (C12), so a
+    # constant of another type may only be inlined if the text carries its type
+    for dt, vals in ((np.float64, [1e-60, 1e300, 1 / 3, 2.5]), (np.float16, [0.5]), (np.int32, [7, -1]), (np.uint8, [200]),
+                     (np.bool_, [True]), (np.int8, [-5]), (np.uint64, [2 ** 63])):
+        for v in vals:
+            cases.append((np.array(v, dtype=dt), f"{np.dtype(dt).name} scalar {v!r}"))
+            cases.append((np.array([v], dtype=dt), f"{np.dtype(dt).name}[1] [{v!r}]"))
     n = 0
     for arr, label in cases:
         node = helper.make_node("Constant", [], ["c"], value=numpy_helper.from_array(arr, "c"))
@@ -216,9 +223,14 @@ def s_const_repr(_ctx):
         n += 1
         try:
             val = eval(text, {"__builtins__": {}}, {})
-            got = np.array(val, dtype=arr.dtype).reshape(arr.shape)
-            ok = got.tobytes() == arr.tobytes() or (np.array_equal(got, arr, equal_nan=True) and not np.any(np.signbit(got) != np.signbit(arr)))
-            detail = f"{label}: text {text!r} evaluates to {val!r}"
+            first = val[0] if isinstance(val, (list, tuple)) and val else val
+            natural = np.bool_ if isinstance(first, bool) else (np.int64 if isinstance(first, int) else np.float32)
+            if isinstance(val, (list, tuple)) and not val:
+                natural = arr.dtype
+            got = np.array(val, dtype=natural).reshape(arr.shape)
+            same_type = np.dtype(natural) == arr.dtype
+            ok = same_type and (got.tobytes() == arr.tobytes() or (np.array_equal(got, arr, equal_nan=True) and not np.any(np.signbit(got) != np.signbit(arr))))
+            detail = f"{label}: text {text!r} evaluates to {val!r}, which the converter types as {np.dtype(natural).name}" + ("" if same_type else f" — not {arr.dtype.name}")
         except Exception as e:  # noqa: BLE001
             ok, detail = False, f"{label}: emitted literal {text!r} is not a self-contained Python expression ({type(e).__name__}: {e})"
         agg.ob("C13.export.const_repr.literal_text_evaluates_to_the_constant", ok, detail, cl, case=label)
@@ -298,3 +310,46 @@ def wrap_(t):
 SCENARIOS.append(Scenario("C13.export.attribute_param_types", s_attribute_param_types,
                           [(REL, "_attribute_param_types"), (REL, "_attribute_param_types.visit_node"), (REL, "_attribute_param_types.visit_graph")],
                           kind="bounded", bound="one attribute reference at nesting depth 0, 1 (GRAPH), 1 (GRAPHS) or 2; name and type symbolic"))
+
+
+def s_attr_name_conflict(ctx):
+    """Attribute parameters keep their names; a VALUE whose name collides with an attribute parameter is renamed to a
+    name that is neither an attribute parameter nor any other name used in the function (real
+    _translate_function_signature.attr_sig + _handle_attrname_conflict.new_renamer)."""
+    import onnx
+    I = Interp(ctx)
+    exp = _exp()
+    self = SObj(exp._Exporter, "exporter")
+    attrs = ["alpha"] + (["alpha_0"] if ctx.choose(2, "a second attribute parameter is named alpha_0") == 1 else []) \
+        + (["alpha_1"] if ctx.choose(2, "a third attribute parameter is named alpha_1") == 1 else [])
+    other_used = {nm for nm in ("alpha_0", "alpha_1", "alpha_2", "x") if ctx.choose(2, f"the function body uses a value named {nm}") == 1}
+    other_used -= set(attrs)
+    self.fields.update(_attr_renaming={}, _names_used=set(other_used) | {"alpha"}, _name_remappings=[], constants={})
+
+    def ident(n):
+        raise AssertionError
+    I.models[ident] = lambda interp, n: n
+    self.fields["_rename_variable"] = I.call(I.getattr(self, "_handle_attrname_conflict"), [ident])
+    I.models[exp._attribute_param_types] = lambda interp, f: {}
+    fp = SObj(onnx.FunctionProto, "funproto")
+    fp.fields.update(input=["x"], attribute=list(attrs), attribute_proto=[])
+    sig = I.run_closure(I.closure_of(exp._Exporter._translate_function_signature), [self, fp], {})
+    ctx.check("C13.export.signature.attribute_parameters_keep_their_names", isinstance(sig, str) and all(f"{a}: " in sig for a in attrs),
+              "C13: 'functions with attribute parameters' keep their interface")
+    # a value named like the first attribute parameter (SSA name from the proto) is now referenced
+    before = set(self.fields["_names_used"])
+    r = I.call(self.fields["_rename_variable"], ["alpha"])
+    r2 = I.call(self.fields["_rename_variable"], ["alpha"])
+    ctx.check("C13.export.rename.value_colliding_with_an_attribute_parameter_gets_a_name_that_is_no_attribute_parameter",
+              isinstance(r, str) and r not in attrs, "C13: 'it never emits text ... that denotes a different computation' — rebinding an attribute parameter name to a tensor")
+    ctx.check("C13.export.rename.replacement_name_is_not_used_by_another_value", isinstance(r, str) and r not in other_used,
+              "C13: two different ONNX values must not share a Python name")
+    ctx.check("C13.export.rename.same_value_gets_the_same_replacement_every_time", r == r2, "C13")
+    r3 = I.call(self.fields["_rename_variable"], ["x"])
+    ctx.check("C13.export.rename.other_names_unchanged", r3 == "x", "C13")
+
+
+SCENARIOS.append(Scenario("C13.export.attr_name_conflict", s_attr_name_conflict,
+                          [(REL, "_Exporter._translate_function_signature"), (REL, "_Exporter._translate_function_signature.attr_sig"),
+                           (REL, "_Exporter._handle_attrname_conflict"), (REL, "_Exporter._handle_attrname_conflict.new_renamer")],
+                          kind="bounded", bound="attribute parameters among alpha, alpha_0, alpha_1; other used names among alpha_0..alpha_2, x"))
